@@ -126,19 +126,25 @@ theorem dacHoldsB_iff (s : State) : dacHoldsB s = true ↔
       ParticipatesD s r.meas d → (aget n g.progs).isSome = true := by
   simp only [dacHoldsB, allIdx_iff, allGet_iff, decide_eq_true_iff]
 
+theorem healthyAB_iff (s : State) : healthyAB s = true ↔ ∀ g ∈ s.awgs, g.fault = 0 := by
+  simp only [healthyAB, List.all_eq_true, decide_eq_true_iff]
+
+theorem healthyDB_iff (s : State) : healthyDB s = true ↔ ∀ g ∈ s.dacs, g.fault = 0 := by
+  simp only [healthyDB, List.all_eq_true, decide_eq_true_iff]
+
 theorem invB_iff' (s : State) : invB s = true ↔ Inv s := by
   simp only [invB, Bool.and_eq_true, wfChanB_iff, wfMeasB_iff, regAwgsB_iff, regDacsB_iff, awgHeldB_iff,
-    awgHoldsB_iff, dacHeldB_iff, dacHoldsB_iff]
+    awgHoldsB_iff, dacHeldB_iff, dacHoldsB_iff, healthyAB_iff, healthyDB_iff]
   constructor
-  · rintro ⟨⟨⟨⟨⟨⟨⟨h1, h2⟩, h3⟩, h4⟩, h5⟩, h6⟩, h7⟩, h8⟩
-    exact ⟨h1, h2, h3, h4, h5, h6, h7, h8⟩
-  · rintro ⟨h1, h2, h3, h4, h5, h6, h7, h8⟩
-    exact ⟨⟨⟨⟨⟨⟨⟨h1, h2⟩, h3⟩, h4⟩, h5⟩, h6⟩, h7⟩, h8⟩
+  · rintro ⟨⟨⟨⟨⟨⟨⟨⟨⟨h1, h2⟩, h3⟩, h4⟩, h5⟩, h6⟩, h7⟩, h8⟩, h9⟩, h10⟩
+    exact ⟨h1, h2, h3, h4, h5, h6, h7, h8, h9, h10⟩
+  · rintro ⟨h1, h2, h3, h4, h5, h6, h7, h8, h9, h10⟩
+    exact ⟨⟨⟨⟨⟨⟨⟨⟨⟨h1, h2⟩, h3⟩, h4⟩, h5⟩, h6⟩, h7⟩, h8⟩, h9⟩, h10⟩
 
 theorem judge_ok_iff (s : State) : judge s = "ok" ↔ invB s = true := by
   unfold judge invB
   cases wfChanB s <;> cases wfMeasB s <;> cases regAwgsB s <;> cases regDacsB s <;> cases awgHeldB s <;>
-    cases awgHoldsB s <;> cases dacHeldB s <;> cases dacHoldsB s <;> simp
+    cases awgHoldsB s <;> cases dacHeldB s <;> cases dacHoldsB s <;> cases healthyAB s <;> cases healthyDB s <;> simp
 
 /-! ## congruence: the invariant's clauses read the wiring maps and the device sizes only -/
 
@@ -176,6 +182,7 @@ theorem inv_update (s s' : State) (n : Name) (rnew : Option Reg) (hI : Inv s)
         (∀ x ∈ r.meas, ∀ m ∈ wiredM s.measMap x.1, m.dac ∈ r.dacs))
     (hfwdA : ∀ (a : AwgId) (g : Awg), s.awgs[a]? = some g → ∃ g', s'.awgs[a]? = some g')
     (hlenD : s'.dacs.length = s.dacs.length)
+    (hhA : ∀ g' ∈ s'.awgs, g'.fault = 0) (hhD : ∀ g' ∈ s'.dacs, g'.fault = 0)
     (hawg : ∀ (a : AwgId) (g' : Awg), s'.awgs[a]? = some g' → ∃ g, s.awgs[a]? = some g ∧ g'.nch = g.nch ∧ g'.nmk = g.nmk ∧
         (∀ n', n' ≠ n → aget n' g'.progs = aget n' g.progs) ∧
         (∀ u, aget n g'.progs = some u → ∃ r, rnew = some r ∧ Participates s r.channels a ∧ UploadOK s r a g u) ∧
@@ -191,7 +198,7 @@ theorem inv_update (s s' : State) (n : Name) (rnew : Option Reg) (hI : Inv s)
     by_cases e : n' = n
     · subst e; left; exact ⟨rfl, by rw [← hregn, h]⟩
     · right; exact ⟨e, by rw [← hreg n' e, h]⟩
-  refine ⟨?_, ?_, ?_, ?_, ?_, ?_, ?_, ?_⟩
+  refine ⟨?_, ?_, ?_, ?_, ?_, ?_, ?_, ?_, hhA, hhD⟩
   · -- wfChan
     intro c outs hc o ho
     rw [hcm] at hc
